@@ -383,7 +383,7 @@ def run(work, tier, replay=None):
             # symptom of D11 (FrameFlow.tla, Flush="queue"): the session's frame worker is blocked pushing a parked update
             # into a member's full scheduler queue while that member waits for the frame lock the worker holds
             stacks = r.get("goroutine_stacks") or []
-            if bad and any("[chan send]" in g and "StartDispatchFrames" in g for g in stacks) and any("RWMutex.Lock" in g for g in stacks):
+            if bad and any("[chan send]" in g and "@scheduler.HandleFrame" in g for g in stacks) and any("Mutex.Lock]" in g for g in stacks):
                 bad.insert(0, "frame worker blocked on a member's full scheduler queue: " + bad[0])
         else:
             bad = judge(sc, r)
